@@ -380,7 +380,10 @@ impl Property for C12 {
             // follow-up probe: nothing was left behind
             if m.unwrap() >= 64 {
                 o.class("probe-run");
-                if let Some(f) = probe(&mut w) {
+                if w.run_result.is_some() {
+                    // run() ending on a refused request is C13's finding, not a residue
+                    o.excluded.push("probe skipped: run() returned".into());
+                } else if let Some(f) = probe(&mut w) {
                     return Outcome { fail: Some(f), ..o };
                 }
             } else {
